@@ -64,6 +64,41 @@ def matrix_cases(tier):
     return out
 
 
+def ladder_cases(tier):
+    """
+    Larger inputs along one dimension (size thresholds): n x n matrices that are zero except for
+    one row (the first or the last) holding every choice of <= 2 (thorough <= 3) truthy columns, the full
+    diagonal / anti-diagonal / last column / one full row; adjacency dicts with one long row.
+    """
+    sizes = list(range(4, 13)) + [16, 17] + ([32, 33] if tier != "quick" else [])
+    out = []
+    for n in sizes:
+        side = tuple(range(n))
+        zero = [["0"] * n for _ in range(n)]
+
+        def mat(cells):
+            m = [row[:] for row in zero]
+            for (i, j) in cells:
+                m[i][j] = "1"
+            return tuple(tuple(r) for r in m)
+
+        ksub = 2 if (tier == "quick" or n > 12) else 3
+        for r in (0, n - 1):
+            for k in range(1, ksub + 1):
+                for cols in itertools.combinations(range(n), k):
+                    out.append(("matrix", mat([(r, j) for j in cols]), side))
+        out.append(("matrix", mat([(i, i) for i in range(n)]), side))
+        out.append(("matrix", mat([(i, n - 1 - i) for i in range(n)]), side))
+        out.append(("matrix", mat([(i, n - 1) for i in range(n)]), side))
+        out.append(("matrix", mat([(n // 2, j) for j in range(n)]), tuple(reversed(range(n)))))
+        # dicts: one key with a long row (ascending, descending, with a repeat and a self entry)
+        out.append(("dict", (0,), (tuple(range(1, n)),)))
+        out.append(("dict", (0,), (tuple(reversed(range(1, n))),)))
+        out.append(("dict", (0, 1), (tuple(range(n)) + (1,), (0,))))
+        out.append(("dict", tuple(range(n)), tuple((((i + 1) % n),) for i in range(n))))
+    return out
+
+
 def malformed_cases():
     out = []
     for nrows in range(0, 4):
@@ -77,8 +112,18 @@ def malformed_cases():
     return out
 
 
-def make_pool(prior):
-    w = SWorld(NV, 0)
+def case_nv(case):
+    """pool size a case needs (at least NV)"""
+    idx = [NV - 1]
+    if case[0] == "dict":
+        idx += list(case[1]) + [x for row in case[2] for x in row]
+    else:
+        idx += list(case[2])
+    return max(idx) + 1
+
+
+def make_pool(prior, nv=NV):
+    w = SWorld(nv, 0)
     if prior == "prior":
         w.l.append(DirectedEdge(w.v[0], w.v[1]))
         w.u.append(Universe(vertices=[w.v[0], w.v[2]]))
@@ -95,7 +140,7 @@ def full_obs(w, extra_unis=()):
 
 def expected_structure(w_before, pairs, members):
     """pairs: [(i, j)] in creation order -> expected per-vertex new-link sequences"""
-    per_vertex = [[] for _ in range(NV)]
+    per_vertex = [[] for _ in range(len(w_before.v))]
     for k, (i, j) in enumerate(pairs):
         per_vertex[i].append(k)
         if j != i:
@@ -106,7 +151,8 @@ def expected_structure(w_before, pairs, members):
 def judge(case, lt, prior, verbose=False):
     kind = case[0]
     Vertex.NEIGHBOR_CACHING = False
-    w = make_pool(prior)
+    nv = case_nv(case)
+    w = make_pool(prior, nv)
     cls = LINK_CLASSES[lt]
     before = observe(w)
     prior_links = [list(v.links) for v in w.v]
@@ -176,7 +222,7 @@ def judge(case, lt, prior, verbose=False):
         if [id(x) for x in ls[:len(prior_links[i])]] != [id(x) for x in prior_links[i]]:
             return "prior-links-changed"
     # reconstruct creation order: walk pairs, the k-th pair's link is the next unseen link of vertex i
-    cursor = [len(prior_links[i]) for i in range(NV)]
+    cursor = [len(prior_links[i]) for i in range(nv)]
     seen = set()
     for k, (i, j) in enumerate(pairs):
         ls = w.v[i].links
@@ -199,7 +245,7 @@ def judge(case, lt, prior, verbose=False):
             if cursor[j] >= len(lj) or lj[cursor[j]] is not l:
                 return "link-order-at-value-vertex"
             cursor[j] += 1
-    for i in range(NV):
+    for i in range(nv):
         if cursor[i] != len(w.v[i].links):
             return "extra-link"
     if inv_links(w) or inv_members(w):
@@ -207,7 +253,7 @@ def judge(case, lt, prior, verbose=False):
     # read-back (edge families, no prior structure)
     if prior == "none" and lt in ("D", "U", "Ds"):
         directed = lt in ("D", "Ds")
-        for a in range(NV):
+        for a in range(nv):
             nb = [w.vid(x) for x in helpers.neighbors(w.v[a])]
             if directed:
                 want = [j for (i, j) in pairs if i == a]
@@ -222,7 +268,7 @@ def judge(case, lt, prior, verbose=False):
                         want[i] += 1
                 if collections.Counter(nb) != want:
                     return "readback-neighbors"
-            for b in range(NV):
+            for b in (range(nv) if nv <= 4 else sorted({0, 1, nv // 2, nv - 1})):
                 n = len(helpers.find_links(w.v[a], w.v[b]))
                 if directed:
                     m_ = sum(1 for p in pairs if p == (a, b))
@@ -277,11 +323,13 @@ def replay(rec, verbose=False):
 def run(tier, seed, log):
     rep = Report(PROP, tier, seed)
     inputs = dict_cases(2 if tier == "quick" else 3) + matrix_cases(tier) + malformed_cases()
+    ladder = ladder_cases(tier)
     if tier == "quick":
         # the complete product for the dict inputs with rows <= 2; link types T/O and Ds share the code
         # path of D/U, so the full 5 x 2 product is kept for every input
         pass
     cases = [(c, lt, pr) for c in inputs for lt in LTYPES for pr in PRIORS]
+    cases += [(c, lt, "none") for c in ladder for lt in ("D", "U", "O")]
     res = engine_e.explore(cases, per_case, seed=seed, log=log, label="builder inputs")
     for fp, (n, rec) in res.viols.items():
         rep.add(fp, rec, n)
